@@ -114,6 +114,36 @@ inductive Offence (ops : Ops DT Val) (c : ClassDesc DT Val) (cfg : Cfg Val) : Pr
       (lookup pd.name cfg = some (.acc items) ∨ (lookup pd.name cfg = none ∧ items = [])) →
       ParamOffence ops pd dt0 dflt items → Offence ops c cfg
 
+/-! ## the configuration as it is WRITTEN in a configuration file
+
+"Param() vs bare value": `key=v` configures the value `v` of `key`; `key=Param(v, k=x, …)` configures the value `v` and
+the properties `k = x` in the order written; `key=Param(k=x, …)` configures properties only; `g=Group('a', 'b')` configures
+the property `group = 'g'` of `a` and of `b`.  Whatever is written counts — a written value `None`, `0`, `''` is a
+configured value (and has to be of the right type). -/
+
+def writtenItems : DslArg Val → Option (List (Name × Val))
+  | .bare v => some [("value", v)]
+  | .param (some v) kwds => some (kwds ++ [("value", v)])
+  | .param none kwds => some kwds
+  | .group _ => none
+
+/-- the group a `Group(…)` argument puts `k` into (the last one naming it) -/
+def groupFor (args : List (Name × DslArg Val)) (k : Name) : Option Name :=
+  args.foldl (fun acc kv => match kv.2 with
+    | .group ms => if ms.contains k then some kv.1 else acc
+    | _ => acc) none
+
+def withGroup (mkStr : Name → Val) (g : Option Name) (items : List (Name × Val)) : List (Name × Val) :=
+  match g with
+  | some g => setKey "group" (mkStr g) items
+  | none => items
+
+/-- the module configuration a `Mod(name, cls, description, args…)` call stands for -/
+def specCfg (mkStr : Name → Val) (description : Val) (args : List (Name × DslArg Val)) : Cfg Val :=
+  ("description", Entry.prop (.bare description)) ::
+  args.filterMap fun kv => (writtenItems kv.2).map fun items =>
+    (kv.1, Entry.acc (withGroup mkStr (groupFor args kv.1) items))
+
 /-! ## what is observed on the implementation -/
 
 structure ObsParam (DT Val : Type) where
@@ -166,7 +196,8 @@ def paramAppliedB (ops : Ops DT Val) (g : Glue DT Val) (pd : ParamDesc DT Val) (
        | none => true) &&
     -- configured own properties
     (o.described.isNone || items.all fun kv => match ops.ownProp kv.1 with
-      | some f => if kv.1 = "readonly" || kv.1 = "visibility" then optB g.beqVal (lookup kv.1 o.own) (f kv.2) else true
+      | some f => if kv.1 = "readonly" || kv.1 = "visibility" || kv.1 = "group" then
+          optB g.beqVal (lookup kv.1 o.own) (f kv.2) else true
       | none => true) &&
     -- export: described under the configured name, reachable under it and under no other
     (let ex := g.exportName pd.name (match lookup "export" items with
@@ -180,8 +211,30 @@ def paramAppliedB (ops : Ops DT Val) (g : Glue DT Val) (pd : ParamDesc DT Val) (
     -- later range checks use them
     (o.probes.all fun pr => pr.2 == (ops.validate dt' pr.1).isSome)
 
+/-- the value the configuration gives for a module property -/
+def propGiven (d : ModPropDesc Val) (cfg : Cfg Val) : Option Val :=
+  match lookup d.name cfg with
+  | some (.prop (.bare v)) => some v
+  | some (.prop (.dict v)) => v
+  | some (.acc items) => lookup "value" items
+  | none => none
+
+/-- "each configured module property … is applied to that instance": the instance shows the configured value,
+converted to the property's datatype — on EVERY instance built from the configuration (each module of a file, each
+start of the node) -/
+def modPropsB (g : Glue DT Val) (c : ClassDesc DT Val) (cfg : Cfg Val) (o : ObsModule DT Val) : Bool :=
+  !o.registered ||
+  c.modProps.all fun d =>
+    match propGiven d cfg with
+    | some v =>
+      (match d.validate v, lookup d.name o.modProps with
+       | some v', some w => g.beqVal w v'
+       | _, _ => true)          -- not observed; an ill-typed value is judged by `rejectedB`
+    | none => true
+
 def appliedB (ops : Ops DT Val) (g : Glue DT Val) (c : ClassDesc DT Val) (cfg : Cfg Val) (o : ObsModule DT Val) : Bool :=
   !o.registered ||
+  modPropsB g c cfg o &&
   c.params.all fun pd =>
     match startOf ops c cfg pd with
     | some (dt0, dflt) =>
